@@ -486,7 +486,15 @@ fn convert_job(ctx: &Ctx, job: usize, jobs: usize, thorough: bool) -> Stats {
                 continue;
             }
             let names = &name_sets[(k / jobs) % name_sets.len()];
-            let edges: Vec<(String, String)> = pairs.iter().enumerate().filter(|(i, _)| (m >> i) & 1 == 1).map(|(_, (a, b))| if rng.chance(1, 2) { (names[*a].to_string(), names[*b].to_string()) } else { (names[*b].to_string(), names[*a].to_string()) }).collect();
+            let mut edges: Vec<(String, String)> = pairs.iter().enumerate().filter(|(i, _)| (m >> i) & 1 == 1).map(|(_, (a, b))| if rng.chance(1, 2) { (names[*a].to_string(), names[*b].to_string()) } else { (names[*b].to_string(), names[*a].to_string()) }).collect();
+            // a third of the inputs state one or two edges twice (same line again, or reversed): the same graph
+            if rng.chance(1, 3) {
+                for _ in 0..(1 + rng.usize(2)) {
+                    let e = edges[rng.usize(edges.len())].clone();
+                    edges.push(if rng.chance(1, 2) { e } else { (e.1, e.0) });
+                }
+                st.bump("colour_inputs_with_repeated_edges");
+            }
             for colors in 0..=3usize {
                 convert_case(ctx, &mut st, &edges, rng.chance(1, 2), false, Some(colors), &format!("{}-{}-k{}", job, k, colors));
             }
@@ -546,6 +554,16 @@ pub fn run(ctx: &Ctx) -> (Stats, Spec) {
     });
     let mut st = crate::report::merge_all(parts);
     st.exhaustive.push("every request (V <= 6, E <= max+2, -u, --dot, stdout / -o) and --complete for V <= 6; --convert on all digraphs with <= 3 vertices; --colors k (k = 0..3) on all loop-free graphs with 2..4 vertices".into());
+    if std::path::Path::new("/dev/full").exists() {
+        for (args, to_stdout) in [(vec!["5", "6"], true), (vec!["5", "6", "-o", "/dev/full"], false), (vec!["--complete", "4", "-d"], true)] {
+            st.evals += 1;
+            match super::common::fails_on_full_device(ctx, "random_graph_gen", &args, None, to_stdout) {
+                Some(true) => st.bump("full_device_reported"),
+                Some(false) => st.violate("c18.run", "C18:success-although-nothing-could-be-written".into(), format!("random_graph_gen {:?} with the output on a full device exits 0", args), json!({"kind": "full-device"})),
+                None => st.bump("watchdog(inconclusive case)"),
+            }
+        }
+    }
     // file names that are not valid UTF-8: --convert IN -o OUT reproduces the list
     {
         let csv = "a,b\nb,c\nc,a\n";
@@ -563,7 +581,7 @@ pub fn run(ctx: &Ctx) -> (Stats, Spec) {
         rule: "all (V in 0..6, E in 0..max+2, -u, --dot, stdout or -o) requests and boundary edge counts for V in {11, 17, 40}, feasible ones repeated 10 [quick] / 60 [thorough] times (every run is a fresh random sample; the number of distinct outputs seen is reported), --complete with and without an edge count, missing arguments; --convert (file to convert: a regular file, a named pipe or /dev/stdin; output to stdout, to another file, or IN PLACE onto the file being converted, directly or through a symbolic link) on every digraph with <= 3 vertices, random edge lists over 4-5 vertices, and (under -u) ordered pairs of distinct edges over five names of every family (a third of them [quick] / all [thorough]) (shuffled rows; exact duplicates and self-loops without -u; reversed pairs under -u), --colors 0..3 on every loop-free graph with 2..4 (thorough: sampled 5) vertices, with seven vertex-name families (names that collide under joining with '-', '_' or '.'; plain; one name a prefix of another: v1 / v10 / v1X, 1 / 10 / 100; names containing the colour suffix pattern), and --colors on generated complete graphs with 11-12 vertices. distinct = (request, output); non-trivial = 0 < E < max resp. non-empty input.".into(),
         assumptions: vec![
             "uniformity of the random sample is not claimed by the property and not tested".into(),
-            "self-loops and exact duplicates are not given to --convert -u / --colors (their treatment is a convention the statement does not fix)".into(),
+            "self-loops are not given to --convert -u / --colors, exact duplicates not to --convert -u (their treatment is a convention the statement does not fix); --colors inputs may state an edge twice (the same graph)".into(),
         ],
         floors: vec![
             ("feasible_requests_checked".into(), 1_000, "too few feasible requests".into()),
